@@ -51,6 +51,7 @@ Outcomes(seq, isQuery) ==
   CASE seq = "Reservation" -> {[o |-> "ok"], [o |-> "ok", early_status |-> TRUE], [o |-> "ok", late_status |-> TRUE], [o |-> "ok", two_receipts |-> TRUE],
                                [o |-> "noreceipt", open |-> FALSE], [o |-> "noreceipt", open |-> TRUE]}
                               \cup {[o |-> "abort", code |-> k] : k \in CodeClasses}
+                              \cup {[o |-> "abort", code |-> 183, status_first |-> TRUE]}      \* declined: a receipt number is shown, then the abort
     [] seq = "PartialReversal" /\ isQuery -> {[o |-> "pending"], [o |-> "pending", receipt |-> 65535, code |-> 183]}
     [] seq = "PartialReversal" -> {[o |-> "ok", status |-> StatusFields], [o |-> "ok_nostatus"], [o |-> "abort", code |-> 183]}
     [] seq = "PreAuthReversal" -> {[o |-> "ok"], [o |-> "abort", code |-> 181]}
@@ -73,7 +74,11 @@ TextOf(s) == CASE s = "11111111" -> <<49, 49, 49, 49, 49, 49, 49, 49>> [] OTHER 
 \* the terminal's replies and its ledger after answering request rq with outcome o
 Answer(t, rq, o) ==
   CASE rq.seq = "Reservation" ->
-         IF o.o = "abort" THEN [replies |-> <<Rp("Abort", [error |-> D(o.code)])>>, term |-> t]
+         IF o.o = "abort" THEN
+              (IF "status_first" \in DOMAIN o
+               THEN [replies |-> <<Rp("StatusInformation", StatusVal(<<D(t.next)>>, NoF)), Rp("Abort", [error |-> D(o.code)])>>,
+                     term |-> [t EXCEPT !.next = @ + 1]]
+               ELSE [replies |-> <<Rp("Abort", [error |-> D(o.code)])>>, term |-> t])
          ELSE IF o.o = "noreceipt"
               THEN [replies |-> <<Rp("StatusInformation", StatusVal(<<>>, NoF)), Completion>>,
                     term |-> IF o.open THEN [t EXCEPT !.open = @ \cup {t.next}, !.next = @ + 1] ELSE t]
